@@ -92,6 +92,7 @@ func runC17(c *Ctx, r *Report) {
 	l := c.L
 	defer c17r11(c, r)
 	defer c17r12(c, r)
+	defer c17r13(c, r)
 	po := l.Fn("fzf", "ParseOptions")
 	pos := l.Fn("fzf", "parseOptions")
 	if po == nil || pos == nil {
